@@ -43,6 +43,7 @@ type ReplayFile struct {
 	Dir     string            `json:"dir"`
 	Harness string            `json:"harness"`
 	Observe map[string]string `json:"observe,omitempty"`
+	Prop    string            `json:"prop"`
 }
 
 func runReplays(propID string, reqs []replayReq) []replayRes {
@@ -51,7 +52,7 @@ func runReplays(propID string, reqs []replayReq) []replayRes {
 	os.MkdirAll(dir, 0o755)
 	// write files
 	for i, q := range reqs {
-		rf := ReplayFile{Entry: q.job.Entry, Kind: q.kind, Label: q.label, Model: q.model, Strings: q.strs, Flags: q.job.Flags, Tries: q.tries, Dir: q.job.Dir, Harness: q.job.Harness, Observe: q.obs}
+		rf := ReplayFile{Entry: q.job.Entry, Kind: q.kind, Label: q.label, Model: q.model, Strings: q.strs, Flags: q.job.Flags, Tries: q.tries, Dir: q.job.Dir, Harness: q.job.Harness, Observe: q.obs, Prop: propID}
 		b, _ := json.MarshalIndent(rf, "", " ")
 		name := fmt.Sprintf("%s-%s-%s.json", q.job.key(), q.kind, shortHash(q.kind+q.label+string(b)))
 		out[i].path = filepath.Join(dir, name)
